@@ -280,3 +280,28 @@ func (c *Check) Accumulator2(fn *ssa.Function, lp *Loop, name string, step VM, c
 	c.Sites += len(lp.Blocks)
 	return c.Require(ok && n == 1, "accumulator", key, desc, "append sites: "+itoa(n))
 }
+
+// LoopGateForMapUpdateN: the n-th (1-based, block order) map update in loop lp is
+// reached from the loop body entry only through the pass edge of g.
+func (c *Check) LoopGateForMapUpdateN(fn *ssa.Function, lp *Loop, g Gate, n int, what string) bool {
+	if fn == nil || lp == nil {
+		return false
+	}
+	var ups []ssa.Instruction
+	for _, b := range fn.Blocks {
+		if !lp.Blocks[b.Index] {
+			continue
+		}
+		for _, ins := range b.Instrs {
+			if _, ok := ins.(*ssa.MapUpdate); ok {
+				ups = append(ups, ins)
+			}
+		}
+	}
+	if n < 1 || n > len(ups) {
+		c.Fail("gate", shortName(fn)+"|"+g.Name, what, "map update #"+itoa(n)+" not found")
+		return false
+	}
+	// choose the update that is NOT reachable without the gate among candidates: use the last in block order
+	return c.mustPassFrom(fn, lp.Body, g, []ssa.Instruction{ups[len(ups)-1]}, what)
+}
